@@ -35,3 +35,5 @@ PROPERTY A_C17_OnlyNew
 INVARIANT A_C14_ExitClass
 INVARIANT A_C14_RunningFinish
 PROPERTY A_C14_NoStartAfterInterrupt
+INVARIANT A_C14_RunningCached
+INVARIANT A_C14_CacheConsistent
